@@ -121,6 +121,23 @@ fn main() {
                 std::fs::write(d.join(format!("seed-{i:03}")), b).expect("corpus file");
             }
         }
+        // the dispatcher-side connection-level target: pseudo-random byte strings (its fields are decoded positionally)
+        {
+            let d = dir.join("disp");
+            std::fs::create_dir_all(&d).expect("corpus dir");
+            let mut x = 0x9E37_79B9_7F4A_7C15u64;
+            for i in 0..100usize {
+                let b: Vec<u8> = (0..48)
+                    .map(|k| {
+                        x ^= x << 13;
+                        x ^= x >> 7;
+                        x ^= x << 17;
+                        if k == 0 { (i % 5) as u8 } else if k == 1 { (i / 5 % 4) as u8 } else { (x >> 32) as u8 }
+                    })
+                    .collect();
+                std::fs::write(d.join(format!("seed-{i:03}")), b).expect("corpus file");
+            }
+        }
         std::process::exit(0);
     }
     let id = args[0].to_uppercase();
